@@ -17,6 +17,7 @@ import (
 	"fmt"
 	"os"
 	"path/filepath"
+	"regexp"
 	"sort"
 	"strconv"
 	"strings"
@@ -91,7 +92,7 @@ func main() {
 			fmt.Fprintln(os.Stderr, "-dir is required")
 			os.Exit(2)
 		}
-		cfg := runCfg{programs: 9, values: 2, truncCap: 80, corruptPer: 3, skOps: 1500}
+		cfg := runCfg{programs: 8, values: 2, truncCap: 80, corruptPer: 3, skOps: 1000}
 		if *tier == "thorough" {
 			cfg = runCfg{programs: 24, values: 5, truncCap: 200, corruptPer: 8, skOps: 10000, probes: true}
 		}
@@ -180,6 +181,15 @@ func run(repo, dir string, seed uint64, cfg runCfg, keep bool) int {
 	icfg.BinaryMapKeys = false      // fastgo: FastRead of map<binary,…> does not compile (probed separately)
 	var units []batch.Unit
 	units = append(units, batch.Unit{Prog: aimShapes(), Backend: "fastgo", Recurse: true, Tag: "aim", NoSynth: true})
+	wordBits, werr := issetWordBits(repo)
+	if werr != nil {
+		fmt.Println("ERROR: cannot read the bitset word width from the repo:", werr)
+		return 2
+	}
+	out.Stats["isset_word_bits"] = wordBits
+	// the fastgo unit holds BOTH codecs of the program (the fastgo backend runs the go backend first): FastRead and
+	// the standard Read of the same generated type are compared side by side
+	units = append(units, batch.Unit{Prog: aimRequired(wordBits), Backend: "fastgo", Recurse: true, Tag: "aimreq", NoSynth: true})
 	for i := 0; i < cfg.programs; i++ {
 		p := idlgen.Generate(r, icfg)
 		p.Stats(out.Count)
@@ -209,9 +219,34 @@ func run(repo, dir string, seed uint64, cfg runCfg, keep bool) int {
 		out.Sample(map[string]interface{}{"unusable_unit": u.Key, "tag": u.Tag, "options": u.Options, "exit": u.Exit, "build": firstN(u.BuildErrors, 4), "stderr": firstLines(u.Stderr, 4)})
 		fmt.Printf("UNIT %s (%s %v) not usable: exit=%d build=%v stderr=%s\n", u.Key, u.Tag, u.Options, u.Exit, firstN(u.BuildErrors, 3), firstLines(u.Stderr, 3))
 	}
-	if !b.Units[0].OK() || bad*2 > len(b.Units) {
-		out.Fail(vl.OracleFail{Key: "units-unusable", What: fmt.Sprintf("%d of %d fastgo units were rejected or did not compile (aimed unit ok: %v)", bad, len(b.Units), b.Units[0].OK()),
-			Expected: "generated code compiles", Observed: b.Summary() + "\n" + firstLines(b.BuildOutput, 12)})
+	// a unit that thriftgo rejects or whose output does not compile is REPORTED, never silently skipped (the shapes known
+	// to break the unchanged fastgo backend are kept out of the generated programs and live in the probes): the FastRead /
+	// FastWrite / BLength of that program cannot even be built. Keyed by unit kind and normalised first error.
+	for i := range b.Units {
+		u := &b.Units[i]
+		if u.OK() {
+			continue
+		}
+		first := "thriftgo exit " + strconv.Itoa(u.Exit)
+		if u.Exit == 0 {
+			first = "registry: generated types not found"
+			if len(u.ParseErrors) > 0 {
+				first = u.ParseErrors[0]
+			} else if len(u.BuildErrors) > 0 {
+				first = u.BuildErrors[0]
+			}
+		} else {
+			first += ": " + firstLines(u.Stderr, 1)
+		}
+		kind := u.Tag
+		if strings.HasPrefix(kind, "rand") {
+			kind = "random"
+		}
+		out.Fail(vl.OracleFail{Key: "unit-unusable|" + kind + "|" + normErr(first),
+			What: "the code generated by -g fastgo for this program does not build (unit " + u.Tag + ")",
+			Input: map[string]interface{}{"tag": u.Tag, "options": u.Options, "cmd": u.Cmd, "idl": renderAll(units[i].Prog)},
+			Expected: "thriftgo exit 0 and generated code that compiles",
+			Observed: map[string]interface{}{"exit": u.Exit, "stderr": firstLines(u.Stderr, 6), "parse": firstN(u.ParseErrors, 4), "build": firstN(u.BuildErrors, 6)}})
 	}
 	if chk, err := b.Check(); err != nil || !strings.Contains(chk, " bad 0") {
 		fmt.Println("driver -check:", chk, err)
@@ -244,6 +279,12 @@ func run(repo, dir string, seed uint64, cfg runCfg, keep bool) int {
 					genOps(r, cfg, u, sidx, key, v, ls, out)
 				}
 			}
+		}
+		if u.Tag == "aimreq" {
+			for sidx, st := range u.Schema.Structs {
+				requiredPatterns(u, sidx, fmt.Sprintf("%s:%d", u.Key, sidx), st, wordBits, ls, out)
+			}
+			continue
 		}
 		for sidx := range u.Schema.Structs {
 			key := fmt.Sprintf("%s:%d", u.Key, sidx)
@@ -418,6 +459,15 @@ func limitMemory(bytes uint64) {
 	if err := syscall.Setrlimit(syscall.RLIMIT_AS, &l); err != nil {
 		fmt.Println("warning: cannot set RLIMIT_AS:", err)
 	}
+}
+
+// normErr strips unit directories and positions from a compiler message so that the key does not depend on the batch.
+var normErrRe = regexp.MustCompile(`(^|[\s(])(?:[\w./-]*/)?([\w-]+\.go):\d+:\d+:`)
+
+func normErr(s string) string {
+	s = normErrRe.ReplaceAllString(s, "$1$2:")
+	s = regexp.MustCompile(`batch/u\d+/`).ReplaceAllString(s, "")
+	return strings.TrimSpace(s)
 }
 
 func renderAll(p *idlgen.Program) map[string]string { return p.Render() }
@@ -777,6 +827,91 @@ func aimedReads(u *batch.UnitInfo, sidx int, key string, st *idlgen.SStruct, ls 
 	}
 }
 
+// requiredPatterns: for a struct of the "required" unit, FastRead and the standard Read of the encoding with the
+// required fields present according to each pattern: none/all missing, each single one missing, every prefix only,
+// every suffix only, each whole word of the bitset missing, each whole word alone present. Both readers must fail
+// (error class "required field … is not set") iff some required field is absent.
+func requiredPatterns(u *batch.UnitInfo, sidx int, key string, st *idlgen.SStruct, w int, ls *lineSet, out *vl.Out) {
+	v := reqValue(st)
+	enc, encErr, norm, normErr := genWriteOps(u, sidx, key, v, ls)
+	if encErr != nil || normErr != nil {
+		panic("c10: the required unit's value does not encode")
+	}
+	fields, err := refcodec.Split(enc)
+	if err != nil {
+		panic(err)
+	}
+	var ids []int // required ids in bitset order (= sorted by id)
+	for _, f := range st.Fields {
+		if f.Req == idlgen.Required {
+			ids = append(ids, int(f.ID))
+		}
+	}
+	sort.Ints(ids)
+	n := len(ids)
+	type pat struct {
+		present []bool
+		note    string
+	}
+	var pats []pat
+	seen := map[string]bool{}
+	add := func(note string, pres func(i int) bool) {
+		p := make([]bool, n)
+		k := make([]byte, n)
+		for i := range p {
+			p[i] = pres(i)
+			k[i] = '0'
+			if p[i] {
+				k[i] = '1'
+			}
+		}
+		if !seen[string(k)] {
+			seen[string(k)] = true
+			pats = append(pats, pat{p, note})
+		}
+	}
+	add("none_missing", func(int) bool { return true })
+	add("all_missing", func(int) bool { return false })
+	for j := 0; j < n; j++ {
+		j := j
+		add("single_missing", func(i int) bool { return i != j })
+	}
+	for k := 0; k <= n; k++ {
+		k := k
+		add("prefix_only", func(i int) bool { return i < k })
+		add("suffix_only", func(i int) bool { return i >= k })
+	}
+	for j := 0; j*w < n; j++ {
+		j := j
+		add("word_missing", func(i int) bool { return i/w != j })
+		add("word_only", func(i int) bool { return i/w == j })
+	}
+	pos := map[int]int{}
+	for i, id := range ids {
+		pos[id] = i
+	}
+	for _, p := range pats {
+		var fs []refcodec.RawField
+		missing := false
+		for _, f := range fields {
+			if i, ok := pos[int(f.ID)]; ok && !p.present[i] {
+				missing = true
+				continue
+			}
+			fs = append(fs, f)
+		}
+		in := refcodec.Join(fs)
+		c := check{class: kValid, unit: u, sidx: sidx, value: v, wantErr: missing, note: "aim_req_" + p.note}
+		if !missing {
+			c.expect = norm
+		}
+		addRead(ls, c, key, in)
+		ri := ls.add("RE "+key+" "+hx(in), &check{class: "RE", unit: u, sidx: sidx, pair: -1})
+		ls.add("FE "+key+" "+hx(in), &check{class: kErrCls, unit: u, sidx: sidx, pair: ri, wantErr: missing, note: "req_" + p.note})
+		out.Count("reqpattern." + p.note)
+	}
+}
+
 // skOps: direct correspondence of the runtime library's Skip (the primitive the no-panic theorem assumes
 // bounds-checked) with its Lean model: random well-formed values, their truncations and byte mutations.
 func skOps(r *vl.Rng, n int, ls *lineSet) {
@@ -864,7 +999,13 @@ func verdict(ls *lineSet, answers []string, i int, count func(string)) (string, 
 			return s
 		}
 		if cls(ans) != cls(ra) {
-			return "", "FastRead and Read fail differently (error class)", ra
+			return "", "FastRead and Read fail differently (error class; " + c.note + ")", ra
+		}
+		if c.wantErr && cls(ans) != "err:required" {
+			return "", "a required field is absent but the error is not `required field … is not set` (" + c.note + ")", "err:required"
+		}
+		if strings.HasPrefix(c.note, "req_") && !c.wantErr && ans != "ok" {
+			return "", "all required fields are present but the read fails (" + c.note + ")", "ok"
 		}
 		if ans != ra {
 			count("errclass.required_name_differs")
